@@ -257,6 +257,15 @@ def main(argv=None) -> int:
     tw = [f'twin:{k}' for k in range(4)]
     for a_, b_ in itertools.permutations(tw, 2):
         work.append(({'sequence': [a_, b_]}, 0))
+    # every shipped module before and after modules of the other families (state shared between module objects, e.g. a
+    # default list that one module's constructor mutates, shows in the second one's pretty files)
+    shipped = [t for t in T if t.startswith('shipped:')]
+    others = [next((t for t in T if t.startswith(k)), None) for k in ('graph:', 'nested:', 'twin:', 'expr:')]
+    for s_ in shipped:
+        for o_ in others:
+            if o_ is not None:
+                work.append(({'sequence': [s_, o_]}, 0))
+                work.append(({'sequence': [o_, s_]}, 0))
     for t in T:
         if t.split(':')[0] in ('shipped', 'graph', 'nested', 'expr'):
             work.append(({'sequence': [t], 'mutate': True}, 0))
